@@ -42,15 +42,16 @@ var c18Mesgs = map[byte][]uint16{
 
 func c18Opts(rng *lib.Rand, ft byte) lib.GenOpts {
 	return lib.GenOpts{
-		FileType:  ft,
-		Mesgs:     c18Mesgs[ft],
-		Records:   4 + rng.Intn(30),
-		Locals:    1 + rng.Intn(4),
-		Redefine:  10,
-		BigEndian: 50,
-		Unknown:   10,
-		MaxFields: 5,
-		Narrow:    5,
+		FileType:   ft,
+		Mesgs:      c18Mesgs[ft],
+		Records:    4 + rng.Intn(30),
+		Locals:     1 + rng.Intn(4),
+		Redefine:   10,
+		BigEndian:  50,
+		Unknown:    10,
+		MaxFields:  5,
+		Narrow:     5,
+		RepeatPrev: 8,
 		ForceFields: func(r *lib.Rand, g uint16) []byte {
 			var out []byte
 			for _, s := range ref.CompSources(g) {
